@@ -314,6 +314,14 @@ func c05Matrix(r *vReport, idx *int64) {
 		{"matrix-expression", "      matrix: ${{ fromJSON(vars.M) }}\n", nil, true, nil},
 	}
 	positions := []string{"step-run", "step-env", "step-if", "job-name", "job-env", "runs-on", "container-image"}
+	// the same definitions with the keys spelled in mixed case (references stay upper-cased: names
+	// are case-insensitive on both sides)
+	recase := strings.NewReplacer("kinc2:", "KINC2:", "kinc:", "kInc:", "ka:", "Ka:", "kb:", "KB:", "nx:", "Nx:", "ny:", "nY:", "nz:", "NZ:")
+	for _, mc := range append([]mcase{}, cases...) {
+		mc.name += "/mixed-case-keys"
+		mc.matrix = recase.Replace(mc.matrix)
+		cases = append(cases, mc)
+	}
 	for _, mc := range cases {
 		for _, pos := range positions {
 			keys := append(append([]string{}, mc.def...), "kundef")
@@ -577,7 +585,7 @@ func TestVerifC05(t *testing.T) {
 	r.Bounds["steps_per_job"] = maxSteps
 	r.Bounds["jobs_steps_family"] = 2
 	r.Bounds["jobs_needs_family"] = 3
-	r.Extra["rule"] = "steps: jobs<=2 x steps<=N x every subset of steps carrying an id x reference in 8 step fields of every step and in job outputs / environment.url x target (each id of either job | undefined); needs: 3 jobs x all 64 edge sets x all 6 file orders x needed job is a step job or a reusable-workflow call, reference to .result and to declared / undeclared outputs from every job; matrix: 10 definitions (rows, include same/new/only, exclude, nested values, row / include / include element / whole matrix by expression) x 7 positions x defined/undefined keys; jobs with a matrix (literal / include-only / expression, step job or reusable-workflow call) next to jobs without that key in both file orders; inputs/secrets/jobs: call x dispatch x declared secrets. oracle = scope rule computed by the generator. class = (family, reference kind, in scope?); non-trivial = out of scope"
+	r.Extra["rule"] = "steps: jobs<=2 x steps<=N x every subset of steps carrying an id x reference in 8 step fields of every step and in job outputs / environment.url x target (each id of either job | undefined); needs: 3 jobs x all 64 edge sets x all 6 file orders x needed job is a step job or a reusable-workflow call, reference to .result and to declared / undeclared outputs from every job; matrix: 10 definitions x {lower-case, mixed-case keys} (rows, include same/new/only, exclude, nested values, row / include / include element / whole matrix by expression) x 7 positions x defined/undefined keys; jobs with a matrix (literal / include-only / expression, step job or reusable-workflow call) next to jobs without that key in both file orders; inputs/secrets/jobs: call x dispatch x declared secrets. oracle = scope rule computed by the generator. class = (family, reference kind, in scope?); non-trivial = out of scope"
 	r.Extra["assumptions"] = []string{"step ids, job ids and keys are referenced in a different letter case than defined (case-insensitivity is part of resolution)", "for cyclic needs graphs only the needs.* verdicts are compared"}
 	if raw := vReplayInput(); raw != nil {
 		var rp struct {
